@@ -276,6 +276,7 @@ def main(argv=None):
                     choices=["quick", "thorough"])
     ap.add_argument("--replay")
     ap.add_argument("--seed", type=int, default=None)
+    ap.add_argument("--optimized-pass", action="store_true", help=argparse.SUPPRESS)
     a = ap.parse_args(argv)
     prop = a.prop.upper()
     seed = a.seed if a.seed is not None else int(os.environ.get("VERIF_SEED", "0") or 0)
@@ -310,9 +311,37 @@ def main(argv=None):
                     n_replays += 1
                     for sig, msg, case in run_replay_file(mod, os.path.join(rdir, fn)):
                         ctx.result.violation(sig, case, "[replay %s] %s" % (fn, msg))
+        if a.optimized_pass:
+            # (child of the step below: this interpreter runs with -OO; print what was found and leave)
+            mod.run(ctx)
+            for sig in sorted(ctx.result.violations):
+                v = ctx.result.violations[sig]
+                sys.stdout.write("OPT-VIOLATION\t" + json.dumps({"sig": sig, "case": v["case"], "msg": v["msg"]}, default=repr) + "\n")
+            sys.stdout.write("OPT-DONE\t%d\t%d\n" % (ctx.result.evaluations, ctx.result.distinct_nontrivial))
+            return 0
         # 2. generated-input search
         mod.run(ctx)
         res = ctx.result
+        # 2b. the same search once more in an interpreter started with -OO (assert statements and docstrings are gone, as
+        #     in a production deployment with PYTHONOPTIMIZE=2): whatever the library checks must still be checked
+        if getattr(mod, "OPTIMIZED_PASS", False):
+            import subprocess
+            env = dict(os.environ, VERIF_REPO=REPO, PYTHONHASHSEED="0", PYTHONDONTWRITEBYTECODE="1")
+            r = subprocess.run([sys.executable, "-OO", "-B", os.path.abspath(__file__), prop, "--tier", a.tier, "--seed", str(seed),
+                                "--optimized-pass"], capture_output=True, text=True, env=env, cwd=VERIF)
+            done = [ln for ln in r.stdout.splitlines() if ln.startswith("OPT-DONE\t")]
+            if r.returncode != 0 or not done:
+                lib_tb = "dali/" in r.stderr
+                if lib_tb:
+                    res.violation("%s:python-OO:run-failed" % prop, {"optimized_pass": True}, "the check run under python -OO failed: " + r.stderr[-700:])
+                else:
+                    raise HarnessError("optimized pass failed: %s" % r.stderr[-1500:])
+            for ln in r.stdout.splitlines():
+                if ln.startswith("OPT-VIOLATION\t"):
+                    d = json.loads(ln.split("\t", 1)[1])
+                    res.violation(d["sig"] + ":python-OO", d["case"], "[interpreter started with -OO] " + d["msg"])
+            if done:
+                res.extra["evaluations_under_python_OO"] = int(done[0].split("\t")[1])
 
         # 3. report
         new = 0
